@@ -53,11 +53,14 @@ def parseTypeDefD (s : String) : Option TypeDef :=
 def parseGlobalD (s : String) : Option Global :=
   match s.splitOn ":" with
   | [n, k, tc] =>
+    -- the kind field may carry the optional keywords of the global variable: `g~<i>,<i>…` / `c~<i>,<i>…` (positions in `Whole.kGLead`, in the order written)
+    let kparts := k.splitOn "~"
+    let lead := ((kparts.getD 1 "").splitOn ",").filterMap String.toNat?
     let cs := tc.toList
     match parseTy (cs.length + 2) cs with
     | some (t, '=' :: r) =>
       (match parseConstD (r.length + 2) r with
-       | some (c, []) => some ⟨argHex n, k == "c", t, c⟩
+       | some (c, []) => some ⟨argHex n, kparts.headD "" == "c", t, c, lead⟩
        | _ => none)
     | _ => none
   | _ => none
